@@ -244,9 +244,11 @@ CLAIMED['C13'] = dict(
     technique="Coq proof over fit_to_range re-translated from excelutil.py by the Python-AST translator on every "
               "run, plus hand-written models of array_fixup (numpy broadcasting) and cse_array_wrapper (closure) "
               "on top of C10's operator model; extracted-model/implementation differential run exhaustive over "
-              "shapes up to 4x4; property oracle on the implementation incl. end-to-end workbooks with array "
-              "formulas entered over target ranges",
-    text="Machine-checked (Coq 8.16, 13 theorems in coq/Props/C13.v, all closed under the global context). "
+              "shapes up to 4x4; hand-written model of the CSE pipeline (Model/CseCells.v: load_array_formulas, "
+              "cell_to_formula, _OpxRange range-formula detection, _evaluate_range / eval_func / INDEX / "
+              "_evaluate) compared with ExcelCompiler on every cell of every target; property oracle on the "
+              "implementation incl. end-to-end workbooks with array formulas entered over target ranges",
+    text="Machine-checked (Coq 8.16, 30 theorems in coq/Props/C13.v, all closed under the global context). "
          "FULL, all sizes (unbounded lists, induction/lia): C13_fit_shape and C13_fit_elem on Gen/arrayfit.v "
          "(_ArrayFormulaContext.fit_to_range, regenerated from /repo/src/pycel/excelutil.py every run; the "
          "context object is modelled by its ctx_address.size = (height, width)): for every non-empty rectangular "
@@ -266,16 +268,47 @@ CLAIMED['C13'] = dict(
          "through) and C13_fun_no_array. PARTIAL: C13_op_scalar_error_right_partial (array op scalar-error "
          "returns the scalar error; pointwise only against non-error elements) — the full statement is REFUTED "
          "in the model and on the implementation (coq/Refuted/C13_scalar_error.v: ((#REF!,1),) + #N/A gives "
-         "#N/A at the position where the scalar operator and Excel give #REF!). CORRESPONDENCE/ORACLE-ONLY (no "
-         "theorem): numpy's np.array/np.broadcast (hand-modelled: to_nd, bshape, expand), the lifted library "
-         "functions MOD, ROUND, LEFT, IF through apply_meta (pointwise oracle against the same function on "
-         "scalars), and the whole CSE pipeline of excelwrapper/excelcompiler (CSE_INDEX expansion, range "
-         "re-assembly, member cell = index(range,i,j)): generated openpyxl workbooks with ArrayFormula cells "
-         "over every target shape, evaluate(range) and evaluate(member) compared with the statement and with "
-         "fit_to_range(op_fixup ...) computed by the extracted models. Every quick run: ~37k cases — all 17x17 "
+         "#N/A at the position where the scalar operator and Excel give #REF!); C13_op_scalar_error_right_exact "
+         "(FULL) says what the scalar operator gives at every position (the left element where that is an "
+         "error, the right error elsewhere) and C13_scalar_error_member that over a target every member shows "
+         "the scalar error, also where the array does not reach (the known finding). THE CSE PIPELINE "
+         "(Proofs/C13Cells.v over the hand-written Model/CseCells.v; cse_member h w result i j = the member "
+         "stamped (i,j) of a CSE range of size h x w whose formula returns result = cell_value(eval_func("
+         "INDEX(eval_func_ctx(fit_to_range(result)), i, j))) with the TRANSLATED fit_to_range and C16's "
+         "wrapped INDEX model), FULL for all result shapes, target shapes and member positions: "
+         "C13_member_shows_own_element (R x C result, target h x w, 1<=i<=h, 1<=j<=w: the member shows "
+         "result[i or 1][j or 1] when the result reaches it — a single row/column repeated, a blank as 0 — and "
+         "#N/A when it does not), C13_member_fit_elem, C13_member_scalar, C13_shown_scalar, C13_range_value "
+         "(the range itself evaluates to the fitted h x w matrix), C13_single_cell_target / _scalar (a one-cell "
+         "reference range is an ordinary formula cell showing element (1,1)), C13_member_cells and "
+         "C13_every_cell_is_member (sheet side: exactly the cells of the reference range are written, each "
+         "stamped with its own 1-based offset, each =index(range,i,j) refers to the whole reference range and "
+         "shows the fitted element at its own offset), C13_members_matrix (all members together = the fitted "
+         "matrix with blanks as 0), C13_range_formula_own / _inner (_OpxRange.__new__: the reference range read "
+         "back is recognised as the formula's range; a range not starting at member (1,1) is evaluated cell by "
+         "cell); C13_formula_op_member (THE WHOLE CLAUSE FOR OPERATORS: =l o r over an h x w target, no scalar "
+         "operand an error: member (i,j) shows fixup(a[i'][j'], o, b[i'][j']) at the broadcast indices — the "
+         "value itself, by C10's closure of fixup on scalars — and #N/A outside the broadcast shape) and "
+         "C13_formula_fun_member (the same for cse_wrapper over an arbitrary f). PARTIAL: "
+         "C13_range_shows_members_partial (evaluating the reference range gives at every position what the "
+         "member cell shows) — the full statement for EVERY range of the sheet is REFUTED in the model and on "
+         "the implementation (coq/Refuted/C13_adjacent_ranges.v: =A1:B1*2 over F10:G10 and again over H10:I10: "
+         "the range F10:I10 is taken for one array formula and evaluates to (2,4,#N/A,#N/A), SUM(F10:I10) = "
+         "#N/A; reported, inert predicate C13-adjacent-array-formulas-merged; second reported finding "
+         "C13-inmemory-subrange-typeerror: with ExcelCompiler(excel=wb) a range starting at a member that is "
+         "not the formula's own range raises TypeError). CORRESPONDENCE/ORACLE-ONLY (no theorem): numpy's "
+         "np.array/np.broadcast (hand-modelled: to_nd, bshape, expand), the lifted library functions MOD, "
+         "ROUND, LEFT, IF through apply_meta (pointwise oracle against the same function on scalars), parsing "
+         "and compiling the =CSE_INDEX(...) / =index(...) texts (the CSE model carries numbers, not text). The "
+         "CSE model is tied to ExcelCompiler on generated openpyxl workbooks with ArrayFormula cells over every "
+         "target shape: target_cells(h, w, result) against evaluate(cell) for EVERY cell of every target "
+         "(~4.7k targets), load_members/member_range against the texts in the member cells (~550 targets), "
+         "range_formula / range_value against _OpxRange on ranges around two adjacent array formulas (~600); "
+         "evaluate(range) and evaluate(member) (every member, ~28k) are also compared with the statement and "
+         "with fit_to_range(op_fixup ...) computed by the extracted models. Every quick run: ~64k cases — all 17x17 "
          "operand shape pairs (scalar + 1..4 x 1..4) x 13 operators, all 17 result shapes x 16 target shapes "
          "for fit_to_range plus sizes up to 8x8 -> 11x11, all 132 compatible operand pairs x 16 targets end to "
-         "end (~4.7k array formulas, ~9k member cells), ~1.2k wrapper probe calls over 8 parameter-index sets; "
+         "end (~4.7k array formulas, ~28k member cells), ~1.2k wrapper probe calls over 8 parameter-index sets; "
          "values sampled from numbers, text, logicals, blank and the seven error codes; model and "
          "implementation compared exactly.",
     design_ref="DESIGN.md 5 C13",
